@@ -21,7 +21,7 @@ private theorem pinv_init (winA maxA winB maxB nthr : Nat) :
     PInv winB (initPair winA maxA winB maxB nthr) := by
   have hd := sumBy_replicate_idle TSt.heldData rfl nthr
   have ha := sumBy_replicate_idle TSt.heldAdj rfl nthr
-  refine ⟨?_, ?_, ?_, ?_, ?_, ?_⟩
+  refine ⟨?_, ?_, ?_, ?_, ?_, ?_, rfl⟩
   · simp [WInv, initPair, init, dataSum, heldDataAll, hd]
   · simp [SofarInv, initPair, init]
   · intro _; simp [EqCore, initPair, init, adjSum, heldAdjAll, ha]
